@@ -22,7 +22,7 @@ def run(c, replay):
         parser="all strings of length <= %d over - . 1 2 0 a" % c.pick(5, 7),
         nth_match=dict(line_alphabet="a b é ␠ :", line_len=c.pick(5, 7), delimiters=5, nth_lists=12,
                        queries="fuzzy exact prefix suffix equal boundary, inverse fuzzy/exact, --no-extended fuzzy/exact x texts a b ab é"),
-        cli=dict(line_len=c.pick(5, 6), invocations=2400),
+        cli=dict(line_len=c.pick(4, 6), invocations=2400),
         templates=dict(line_len=c.pick(4, 6), forms="--with-nth/--accept-nth list, {..} template, <{A}|{n}|{B}> template, {rsN} and {rN} placeholders"))
     c.assumptions += [
         "a line that ends in a delimiter has a trailing empty field when fzf treats the delimiter as a literal string and none when it "
@@ -56,6 +56,6 @@ def run(c, replay):
     c.run_layer(b, LAYERS["templates"], "templates", deadline_s=c.pick(60, 400),
                 rule="template x delimiter x every line: nthTransformer output (with-nth), Item.acceptNth output and raw {N} placeholder expansion "
                      "= reference selection with the documented trailing-delimiter stripping; non-trivial = output non-empty and different from the line")
-    c.run_layer(b, LAYERS["cli"], "cli", deadline_s=c.pick(60, 400), env=fz,
+    c.run_layer(b, LAYERS["cli"], "cli", deadline_s=c.pick(120, 600), env=fz,
                 rule="the fzf binary: fzf --nth LIST [-d DELIM] [--no-extended [--exact]] -f QUERY fed with every line at once prints exactly the lines the "
                      "reference accepts (multiset) and exits 0/1 accordingly; one evaluation = one invocation over all lines; non-trivial = some but not all lines printed")
